@@ -35,6 +35,7 @@ struct BodyIdx {
     wild_closure_params: Vec<Value>,
     tries: Vec<Value>,
     arms: Vec<Value>,
+    blocks: Vec<Value>,
 }
 impl BodyIdx {
     fn own_attrs(&mut self, attrs: &[syn::Attribute], owner: Span) {
@@ -113,6 +114,10 @@ impl<'ast> Visit<'ast> for BodyIdx {
             "recv_end": m.receiver.span().byte_range().end,
             "args": m.args.iter().map(|a| sp(a.span())).collect::<Vec<_>>()}));
         visit::visit_expr_method_call(self, m);
+    }
+    fn visit_block(&mut self, b: &'ast syn::Block) {
+        self.blocks.push(json!({"span": sp(b.span()), "stmts": b.stmts.iter().map(stmt_json).collect::<Vec<_>>()}));
+        visit::visit_block(self, b);
     }
     fn visit_expr_try(&mut self, t: &'ast syn::ExprTry) {
         self.tries.push(sp(t.span()));
@@ -209,6 +214,7 @@ fn fn_json(
         o.insert("inner_attrs".into(), Value::Array(idx.attrs));
         o.insert("tries".into(), Value::Array(idx.tries));
         o.insert("arms".into(), Value::Array(idx.arms));
+        o.insert("blocks".into(), Value::Array(idx.blocks));
     }
     out
 }
